@@ -14,6 +14,10 @@ CLAIMED["C16"] = (
   "Coq proof by forward simulation (invariant over the mixer state incl. the no-drift counter identity) that the Streamix model refines the closed-form history spec + differential execution of histories in exact arithmetic evaluated inside Coq",
   "Theorem run_eq_spec_run: for every history of add/next operations (any length, any exact rational deltas/data, keep on/off, any zero) the line-by-line model of Streamix produces exactly the outputs of the closed form (event i sounds from S_i = max(ceil(T_i - 1/2), samples already produced when added), output n = zero + items due at n, end when every event has ended); corollaries: negative delta rejected, never early, nearest-sample start, keep never stops, ControlStream yields the last assigned value. Model tied to /repo by exhaustive small + seeded random histories run on the real Streamix/ControlStream with exact rationals and compared in Coq.",
   "Coq kernel + vm_compute; hand-written model (coq/theories/C16/Model.v); exact rationals (ExactQ) stand for floats: float rounding of fractional deltas in the real counter is outside the model", "5/C16")
+CLAIMED["C15"] = (
+  "Coq proof by forward simulation (coherence invariant between the three dicts and a stamped abstract map) for MultiKeyDict and StrategyDict + differential execution of operation histories evaluated inside Coq",
+  "Theorems mkd_refines / sd_refines: for every history of item assignments (key or key tuple), deletions and attribute deletions, the line-by-line model of MultiKeyDict / StrategyDict shows after every step exactly the view of a key -> (value, stamp) map: d[k] is the last value assigned, each value owns one tuple listing its keys by increasing stamp, len/iteration count values, deleting a missing key raises, attributes equal items, the default is the first strategy stored and is re-chosen when it loses its last name. Model tied to /repo by exhaustive short histories + seeded long ones with every observable compared after every step inside Coq.",
+  "Coq kernel + vm_compute; hand-written model (coq/theories/C15/Model.v); hypothesis kt <> [] on tuple assignments (d[()] = v is outside the property); keys are attribute-safe names not colliding with class attributes", "5/C15")
 NOT_YET = {}
 
 def main():
